@@ -230,7 +230,7 @@ fn compare_settings(st: &St, a: &Abs, quantize: bool) -> Result<(), String> {
             let ok = v.iter().any(|i| *i >= i64::from(i32::MIN) && *i <= i64::from(i32::MAX) && (f64::from(*i as i32) / 1e7).to_bits() == got.to_bits() || (*i == 0 && got == 0.0));
             let sat = v.iter().all(|i| *i > i64::from(i32::MAX)) || v.iter().all(|i| *i < i64::from(i32::MIN));
             if !ok && !sat {
-                if near_tie_class(d) {
+                if near_tie_class(d) && got.to_bits() == (((d * 10_000_000.0).round() as i32) as f64 / 1e7).to_bits() {
                     return Err(format!("NEARTIE coordinate {d:e} came back as {got:e} but the nearest multiple of 1e-7 is {:?}e-7 (double rounding at a half-step tie)", v));
                 }
                 return Err(format!("coordinate {d:e} came back as {got:e} but the nearest multiple of 1e-7 is {:?}e-7", v));
@@ -1206,6 +1206,38 @@ pub fn gen(prop: &str, rng: &mut Rng, quick: bool, st: &mut Stats) -> Option<Vec
                         c.push(format!("hist {mode} {}", h.join(";")));
                     }
                     st.bump("histories_exhaustive");
+                }
+            }
+            // reader-backed and in-memory tiles sharing a content in every order; equal contents whose ids are exactly
+            // k * 2^32 + run apart (distances must not be narrowed to 32 bits)
+            for mode in ["sync", "async"] {
+                let m = &mode[..1];
+                let (ca, cb) = ("0a0b0c0d0e", "11121314");
+                for (k, tail) in [
+                    format!("a:3:{ca}"), format!("a:14:{ca}"), format!("a:3:{ca};a:14:{cb}"), format!("a:7:{cb};r:5"), format!("a:3:{cb};a:4:{cb}"),
+                    format!("a:14:{ca};a:15:{ca}"), format!("r:9;a:9:{ca}"),
+                ].iter().enumerate() {
+                    let base = format!("a:5:{ca};a:9:{ca};a:a:{cb};a:c:{ca}");
+                    let ops = format!("{base};s:{m}:{m};{tail}");
+                    if prop == "C04" {
+                        c.push(format!("chk_hist_map {mode} {ops};s:{m}:{m}"));
+                    } else {
+                        c.push(format!("chk_dedup {mode} {ops}"));
+                    }
+                    let _ = k;
+                    st.bump("mixed_backed_and_memory_duplicates");
+                }
+                for (dist, run) in [(1u64 << 32, 3u64), (1 << 32, 1), (2 << 32, 2), ((1 << 32) - 1, 3), ((1 << 32) + 1, 3)] {
+                    let mut ops: Vec<String> = (0..run).map(|i| format!("a:{:x}:{ca}", 10 + i)).collect();
+                    ops.push(format!("a:{:x}:{ca}", 10 + dist + run));
+                    ops.push(format!("a:{:x}:{ca}", 10 + dist + run + 1));
+                    let ops = ops.join(";");
+                    if prop == "C04" {
+                        c.push(format!("chk_hist_map {mode} {ops};s:{m}:{m}"));
+                    } else {
+                        c.push(format!("chk_dedup {mode} {ops}"));
+                    }
+                    st.bump("equal_contents_2pow32_apart");
                 }
             }
             // histories large enough to need leaf directories, with entry counts that do not divide evenly
